@@ -45,7 +45,7 @@ def setRcKids (d : Xml) (cs : List Xml) : Xml :=
 def sameMdKey (s c : Xml) : Bool :=
   c.tag == s.tag && (s.tag != "mosExternalMetadata" || c.findtext "mosSchema" == s.findtext "mosSchema")
 
-def DomC03 (i : MergeInput) : Bool := WfRO i.d && TimingOk i.d && shaped i.k i.m
+def DomC03 (i : MergeInput) : Bool := WfRO i.d && shaped i.k i.m
 
 /-- C03: outside the `roCreate` nothing changes; inside it (story level) or inside the addressed
     story (item level) everything the message does not name is identical and keeps its order;
@@ -116,7 +116,7 @@ def containerKids (k : Kind) (nm : Named) (d : Xml) : Option (List Xml) :=
       | none => none
       | some j => (rc.kids[j]?).map (·.kids)
 
-def DomC04 (i : MergeInput) : Bool := WfRO i.d && TimingOk i.d && shaped i.k i.m
+def DomC04 (i : MergeInput) : Bool := WfRO i.d && shaped i.k i.m
 
 /-- C04: when the merge succeeds, every carried story/item that is not skipped as a duplicate is in
     the container, contiguous, in message order, deep-equal; roStorySend arrives converted;
@@ -195,10 +195,10 @@ def c06Ids (k : Kind) (tag : String) (nm : Named) (ids : List Key) : List Key :=
   | .delete => delKeys nm.sources ids
   | _ => specIds k tag nm ids
 
-/-- domain of C06: a running order, parseable timing, a schema-shaped message.  Nothing is asked of
+/-- domain of C06: a running order (whatever its timing metadata says), a schema-shaped message.  Nothing is asked of
     the IDs of the edited container: they may be blank, missing or repeated. -/
 def DomC06 (i : MergeInput) : Bool :=
-  WfRO i.d && TimingOk i.d && shaped i.k i.m
+  WfRO i.d && shaped i.k i.m
 
 /-- C06: the merge raises `MosMergeError`, or it emits exactly the promised warnings and applies
     every other named element -/
